@@ -152,7 +152,10 @@ def _est(rng, nrows, t, taxa, taxa_grp, force_gt=None):
     if rng.random() < 0.04: est["missing_col"] = True
     return est
 
-SCALES = [0, 0, 0, 0, 0, 0, -40, -20, -8, 10, 20]
+# scales of effects / variances.  Upper end 2^10, not 2^20: records are compared with the model in the tolerance regime
+# (|x-y| <= 2^-30 (1+|y|), Lib/Common.Qclose) and a record that cancels to ~0 carries the rounding error of its operands:
+# at 2^20 that is about 2^23 * 2^-53 * a few = 2^-29 > 2^-30 (false alarm met with VERIF_SEED=3, DESIGN 14.5); at 2^10 it is 2^-38.
+SCALES = [0, 0, 0, 0, 0, 0, -40, -20, -8, 10, 10]
 POP_ROUTES = ["ctor", "ctor", "deepcopy", "copy", "select", "setters"]
 MODEL_ROUTES = ["ctor", "ctor", "deepcopy", "setters"]
 PROTO_ROUTES = ["ctor", "ctor", "copy_m", "deepcopy_m", "setters"]
@@ -271,7 +274,7 @@ def gen_cases(rng, tier):
         if n_ > 12:
             c["h2"] = None; c["est"] = _est(rng, n_, len(c["u"][0]), None, c["taxa_grp"], force_gt=0.0); c["est"]["drop"] = []
         cases.append(c)
-    for k_ in (-40, -20, 10, 20):
+    for k_ in (-40, -20, -8, 10):
         c = _trial(rng, small=True, scale_exp=k_)
         t_ = len(c["u"][0]); f_ = 2.0 ** k_
         c["sd_env"] = [0.0] + [1.5 * f_] * (t_ - 1) if t_ > 1 else 0.5 * f_
@@ -1422,7 +1425,7 @@ def _gen_herit(rng, quick):
     for cls in ("add", "rrblup", "adddom", "adddom_none"):          # every class, diploid and tetraploid, both setters, scalar and per-trait
         for m in (2, 4):
             out.append(_herit(rng, cls=cls, m=m, t=2, scale_exp=0, script=["H2", "h2", "set_ud", "H2", "set_u", "h2", "H2"]))
-    for k_ in (-40, -20, 10, 20):
+    for k_ in (-40, -20, -8, 10):
         out.append(_herit(rng, cls="adddom", m=2, scale_exp=k_))
     for _ in range(110 if quick else 4000):
         out.append(_herit(rng))
